@@ -58,6 +58,9 @@ pub struct Maps {
     pub fwd: [Vec<Option<u32>>; 7],
     pub bwd: [Vec<Option<u32>>; 7],
     pub bodies: BTreeMap<u32, FuncCorr>,
+    /// output *declared* element segments without an input counterpart (tolerated under gc: a
+    /// pass may have to re-declare `ref.func` targets whose declaring segment it removed)
+    pub added_declared_elems: Vec<u32>,
     /// number of input operators that were skipped as nop / dead code
     pub elided_ops: usize,
     pub inserted_else: usize,
@@ -568,7 +571,12 @@ impl<'m> St<'m> {
         self.maps.fwd[sidx(s)].iter().enumerate().filter(|(_, x)| x.is_none()).map(|(i, _)| i as u32).collect()
     }
     fn unmatched_b(&self, s: Space) -> Vec<u32> {
-        self.maps.bwd[sidx(s)].iter().enumerate().filter(|(_, x)| x.is_none()).map(|(i, _)| i as u32).collect()
+        self.maps.bwd[sidx(s)]
+            .iter()
+            .enumerate()
+            .filter(|(i, x)| x.is_none() && !(s == Space::Elem && self.maps.added_declared_elems.contains(&(*i as u32))))
+            .map(|(i, _)| i as u32)
+            .collect()
     }
 
     /// Match leftover output entities to leftover input entities by trial unification with
@@ -594,6 +602,17 @@ impl<'m> St<'m> {
                     }
                     if let Ok(done) = t.match_leftovers(mode, budget) {
                         return Ok(done);
+                    }
+                }
+                // tolerated under gc: a fresh declared segment that only lists functions
+                if mode == IsoMode::Gc && s == Space::Elem {
+                    let e = &self.b.elems[bj as usize];
+                    if e.mode == ElemMode::Declared && norm_items(&e.items).iter().all(|it| matches!(it, Item::Func(_))) {
+                        let mut t = self.clone();
+                        t.maps.added_declared_elems.push(bj);
+                        if let Ok(done) = t.match_leftovers(mode, budget) {
+                            return Ok(done);
+                        }
                     }
                 }
                 // diagnosis: if a plausible partner exists (same intrinsic marker, or the only
